@@ -57,6 +57,10 @@ type JState struct {
 	Multi  bool // multi-document mode
 	ErrOff int  // offset of the byte that made the input invalid (valid when Ph == Err)
 	Docs   int  // documents completed so far
+	// Abstract view of the tree builder (oj.Parser / gen.Parser keep a value stack): H is the height of the stack of
+	// pending values, Bases[j] the height at which open container j put its marker (array) or its map (object).
+	H     int
+	Bases Seq
 }
 
 // Init is the state before the first byte.
@@ -153,8 +157,14 @@ func valueDone(q JState) JState {
 	r := q
 	if q.Kinds.Len() > 0 {
 		r.Ph = After
+		if q.Kinds.Top() == Obj {
+			r.H = q.H - 1 // the value is stored under the pending key, which is popped
+		} else {
+			r.H = q.H + 1 // the value is pushed
+		}
 		return r
 	}
+	r.H = 0 // a complete document is handed off and the stack emptied
 	r.Docs = q.Docs + 1
 	if q.Multi {
 		r.Ph = DocStart
@@ -186,11 +196,15 @@ func startValue(q JState, b int) JState {
 	}
 	if b == '[' {
 		r.Kinds = q.Kinds.Push(Arr)
+		r.Bases = q.Bases.Push(q.H)
+		r.H = q.H + 1
 		r.Ph = ArrFirst
 		return r
 	}
 	if b == '{' {
 		r.Kinds = q.Kinds.Push(Obj)
+		r.Bases = q.Bases.Push(q.H)
+		r.H = q.H + 1
 		r.Ph = ObjFirst
 		return r
 	}
@@ -228,6 +242,8 @@ func closeContainer(q JState, b int) JState {
 	}
 	r := consume(q, b)
 	r.Kinds = q.Kinds.Pop()
+	r.Bases = q.Bases.Pop()
+	r.H = q.Bases.Top() // everything the container put on the stack is folded into one value
 	return valueDone(r)
 }
 
@@ -328,6 +344,7 @@ func Step(q JState, b int) JState {
 		if b == '"' {
 			if q.Key {
 				r.Ph = ObjColon
+				r.H = q.H + 1 // the key is pushed
 				return r
 			}
 			return valueDone(r)
